@@ -15,8 +15,14 @@ Definition outcome_eqb (a b : outcome) : bool :=
 Inductive hstep := HMut | HEnc (str : bool) (zstd : option N).
 
 Inductive case :=
-(* Package.to_bytes(config): the serialised payload, pyzstd's output for it, the envelope produced *)
-| CMake (zstd : option N) (payload compressed envelope : bytes)
+(* Package.to_bytes(config): the envelope produced, and the oracles' answers for it (computed by the harness):
+   `dec_ok` pyzstd.decompress accepts the bytes after the header, `parse_plain` / `parse_dec` the JSON codec's
+   answer for those bytes as they are / decompressed (Some true: a package whose modules and extensions, in
+   order, re-serialise to the original's documents; Some false: another package; None: not decodable).
+   zstd and the JSON text codec are oracles: ANY byte string that decompresses to a payload is a compressed
+   payload, ANY text the codec reads back as the same documents is a serialised payload; the bytes a reference
+   compressor / serialiser would have produced are not part of the promise and not part of the case *)
+| CMake (zstd : option N) (envelope : bytes) (dec_ok : bool) (parse_plain parse_dec : option bool)
 (* Package.to_str(config): format, zstd, outcome class (Ok = string equals the bytes decoded) *)
 | CStr (f : format) (zstd : option N) (utf8 : bool) (obs : outcome)
 (* Package.from_bytes(input): oracle answers for this input, observed outcome *)
@@ -28,11 +34,10 @@ Inductive case :=
 | CTrunc (envelope : bytes) (accepted_lengths other_lengths : list nat) (n_value_errors : nat)
 (* a history on ONE package object (and, when shared, one EnvelopeConfig object): encodings and changes of the
    module list / modules / extensions / config, ending in an encoding.  Observed for the LAST encoding:
-   `payload` is the document of a fresh, never-encoded package built with the same contents, `compressed`
-   pyzstd's output for it, `envelope` what the object returned, then the oracle answers and the outcome of
+   `envelope` what the object returned, the oracles' answers for it as in CMake — where "the original's
+   documents" are those of a fresh, never-encoded package built with the same contents — and the outcome of
    decoding that envelope (Package.from_bytes / from_str), compared with the fresh package's documents *)
-| CSeq (hist : list hstep) (payload compressed envelope : bytes) (dec_ok : bool)
-       (parse_plain parse_dec : option bool) (obs : outcome)
+| CSeq (hist : list hstep) (envelope : bytes) (dec_ok : bool) (parse_plain parse_dec : option bool) (obs : outcome)
 (* an encoding of a JSON configuration (or building the package) raised: exception class only *)
 | CRaised (obs : outcome).
 
@@ -58,8 +63,9 @@ Definition model_accepted : list (N * N * (N * bool)) :=
     end) pairs256.
 Definition acc_eqb := pair_eqb (pair_eqb N.eqb N.eqb) (pair_eqb N.eqb Bool.eqb).
 
-(* the history run through the model: contents = number of changes so far; only the final contents' document
-   is known (observed on a fresh object), which is all the last encoding may depend on *)
+(* the history run through the model: contents = number of changes so far.  The oracles answer with the
+   implementation's own bytes (`body` = what follows the header of the last envelope): the serialiser for the
+   final contents, the compressor for every input; their laws are checked by `payload_ok` *)
 Definition hist_steps (h : list hstep) : list (step N) :=
   map (fun s => match s with
                 | HMut => SMutate N N.succ
@@ -68,27 +74,40 @@ Definition hist_steps (h : list hstep) : list (step N) :=
                 end) h.
 Definition n_muts (h : list hstep) : N :=
   N.of_nat (length (filter (fun s => match s with HMut => true | _ => false end) h)).
-Definition hist_last (h : list hstep) (payload compressed : bytes) : option (N * res bytes) :=
+Definition hist_last (h : list hstep) (body : bytes) : option (N * res bytes) :=
   let final := n_muts h in
-  last (map Some (run_steps N (fun v => if v =? final then payload else []) (fun _ _ => compressed)
+  last (map Some (run_steps N (fun v => if v =? final then body else []) (fun _ _ => body)
                             (fun _ => true) 0 (hist_steps h))) None.
 Definition hist_zstd (h : list hstep) : option (option N) :=
   match last (map Some h) None with Some (HEnc _ z) => Some z | _ => None end.
 
-Definition header_documented (z : option N) (payload compressed envelope : bytes) : bool :=
+Definition is_true (o : option bool) : bool := match o with Some true => true | _ => false end.
+(* the oracle laws on this case.  No compression asked: what follows the header IS a serialised payload of the
+   package (the JSON codec reads the same documents back from it).  Compression asked: what follows the
+   header is zstd-compressed (pyzstd.decompress accepts it) and decompresses to such a payload *)
+Definition payload_ok (z : option N) (dec_ok : bool) (pp pd : option bool) : bool :=
+  match z with
+  | None => is_true pp
+  | Some _ => dec_ok && is_true pd
+  end.
+(* the documented header: magic, format byte, flags (bit 0 = compressed, bits 7,6 = 0,1) *)
+Definition header_documented (z : option N) (envelope : bytes) : bool :=
+  Nat.leb 10 (length envelope) &&
   bytes_eqb (firstn 8 envelope) MAGIC && (nth 8 envelope 0 =? 63) &&
   Bool.eqb (N.testbit (nth 9 envelope 0) 0) (match z with Some _ => true | None => false end) &&
-  negb (N.testbit (nth 9 envelope 0) 7) && N.testbit (nth 9 envelope 0) 6 &&
-  bytes_eqb (skipn 10 envelope) (match z with Some _ => compressed | None => payload end).
+  negb (N.testbit (nth 9 envelope 0) 7) && N.testbit (nth 9 envelope 0) 6.
 Definition known_format (b : N) : bool := mem N.eqb b [1; 2; 63].
 
 Definition corr (c : case) : bool :=
   match c with
-  | CMake z payload compressed envelope =>
-      match make_envelope unit (fun _ => payload) (fun _ _ => compressed) tt {| cformat := JSON; czstd := z |} with
+  | CMake z envelope dec_ok pp pd =>
+      (* the model's serialiser and compressor oracles answer with the implementation's own bytes; their laws
+         (parse (dump p) = p, decompress (compress x) = x) are checked on those answers *)
+      match make_envelope unit (fun _ => skipn 10 envelope) (fun _ _ => skipn 10 envelope) tt
+                          {| cformat := JSON; czstd := z |} with
       | Ok e => bytes_eqb e envelope
       | Err _ => false
-      end
+      end && payload_ok z dec_ok pp pd
   | CStr f z utf8 obs =>
       outcome_eqb obs
         (match f with
@@ -103,18 +122,20 @@ Definition corr (c : case) : bool :=
                        (seq 0 (S (length env))) in
       list_eqb Nat.eqb lens ok && Nat.eqb nve (S (length env) - length ok) &&
       match others with [] => true | _ => false end
-  | CSeq h payload compressed envelope dec_ok pp pd obs =>
-      match hist_last h payload compressed with
+  | CSeq h envelope dec_ok pp pd obs =>
+      match hist_last h (skipn 10 envelope) with
       | Some (v, Ok e) => (v =? n_muts h) && bytes_eqb e envelope
       | _ => false
-      end && outcome_eqb obs (read_model envelope dec_ok pp pd)
+      end &&
+      match hist_zstd h with Some z => payload_ok z dec_ok pp pd | None => false end &&
+      outcome_eqb obs (read_model envelope dec_ok pp pd)
   | CRaised _ => false          (* the model encodes every JSON configuration *)
   end.
 
 (* monitor: the documented format, stated directly on the observations *)
 Definition mon (c : case) : bool :=
   match c with
-  | CMake z payload compressed envelope => header_documented z payload compressed envelope
+  | CMake z envelope dec_ok pp pd => header_documented z envelope && payload_ok z dec_ok pp pd
   | CStr f z utf8 obs =>
       match f with JSON => true | _ => outcome_eqb obs OValueError end
   | CRead valid input dec_ok pp pd obs =>
@@ -137,11 +158,11 @@ Definition mon (c : case) : bool :=
               (seq 0 (S (length env))) &&
       nodupb Nat.eqb lens && forallb (fun n => Nat.leb n (length env)) lens &&
       Nat.eqb nve (S (length env) - length lens)
-  | CSeq h payload compressed envelope dec_ok pp pd obs =>
-      (* the envelope an object gives after any history carries the documented header and the document of its
-         CURRENT contents, and decodes to a package with the same documents *)
+  | CSeq h envelope dec_ok pp pd obs =>
+      (* the envelope an object gives after any history carries the documented header and a payload of its
+         CURRENT contents (compressed iff asked), and decodes to a package with the same documents *)
       match hist_zstd h with
-      | Some z => header_documented z payload compressed envelope && outcome_eqb obs (OOk true)
+      | Some z => header_documented z envelope && payload_ok z dec_ok pp pd && outcome_eqb obs (OOk true)
       | None => false
       end
   | CRaised _ => false
